@@ -147,6 +147,28 @@ check(
     "DESIGN.md §3 C17",
 )
 
+check(
+    "C12",
+    "reference-monitor",
+    "exploration",
+    "runtime monitoring: isomorphism checker over reloaded graphs on every save/load channel + recomputed identifiers; real job processes echoing observed values and tags",
+    "Each generated graph goes through state_dict (single, list, dict), save/load, __json__, serialize and - for generate-only task submissions - the real params.json read back by "
+    "from_task_dir and by the repair tool's loader; classes, all values (floats bit-wise), aliasing, meta flags, pre/init lists, producing tasks and recomputed identifiers must match; "
+    "a sample of generated job scripts is executed and the task body's echo compared with the configured graph and tags.",
+    "Trusted: the isomorphism checker (lib/xvref/iso.py); raw ConfigInformation.values as the observation point.",
+    "DESIGN.md §3 C12",
+)
+check(
+    "C13",
+    "reference-monitor",
+    "exploration",
+    "runtime monitoring: node->object bijection checker and call-log monitor (instrumented model classes) on instance(), fromParameters(as_instance) and real job processes",
+    "For graphs with sharing, cycles and pre/init tasks at many nodes: one runtime object per configuration wired like the graph, __post_init__ exactly once per object after its "
+    "parameters are set, every pre-task exactly once (also with a shared ObjectStore), init tasks once, after the pre-tasks and before the body in the parameter-file routes.",
+    "Trusted: the call log written by xvmodels' instrumented classes; the checker's notion of which configurations a route turns into objects (values, pre-task and init-task lists).",
+    "DESIGN.md §3 C13",
+)
+
 NOT_APPLICABLE = []
 
 
